@@ -232,7 +232,7 @@ def has_sym(v, depth=0):
 
 
 _STDLIB_OK = {"re", "json", "os", "posixpath", "string", "textwrap", "itertools", "functools", "collections", "typing", "enum",
-              "datetime", "platform", "pathlib", "operator", "numbers", "abc", "keyword"}
+              "datetime", "platform", "pathlib", "operator", "numbers", "abc", "keyword", "numpy", "logging", "warnings"}
 MAX_DEPTH = 60
 MAX_CONCRETE_LOOP = 5000
 
@@ -280,6 +280,10 @@ class Interp:
                 return self.call_native(f, args, kwargs)
             raise Unsupported("call of python function %s.%s without model" % (mod, f.__qualname__))
         if isinstance(f, types.MethodType):
+            import logging as _logging
+
+            if isinstance(f.__self__, _logging.Logger):
+                return None  # log output is not part of the model
             return self.call(f.__func__, [f.__self__] + list(args), kwargs)
         if isinstance(f, type):
             return self.instantiate(f, list(args), kwargs)
@@ -358,6 +362,13 @@ class Interp:
             has_sym(list(args)) or has_sym(kwargs)
         ):
             raise Unsupported("numpy function %s on symbolic/model values has no model" % name)
+        if any(isinstance(a, (Closure, BoundMethod, ModelFn)) for a in args) or any(isinstance(a, (Closure, BoundMethod, ModelFn)) for a in kwargs.values()):
+            def wrap(a):
+                if isinstance(a, (Closure, BoundMethod, ModelFn)):
+                    return lambda *x, **kw: self.call(a, list(x), kw)
+                return a
+            args = [wrap(a) for a in args]
+            kwargs = {k: wrap(v) for k, v in kwargs.items()}
         try:
             with warnings.catch_warnings():
                 warnings.simplefilter("ignore")
